@@ -1223,3 +1223,22 @@ def _bounded_split(ctx):
                        exhaustive=True, failures=failures,
                        note='fragments of the real split == independent left-to-right reader; no constant fragment '
                             'covers a position where a complete reference starts')
+
+
+# ------------------------------------------------------------------------------ syntax errors are reported
+# An unterminated quote makes the look-ahead state SYNTAX_ERROR (bounded stand-in); every parser above asks for a
+# valid head token first, which turns it into the instruction's SingleInstructionInvalidArgumentException.
+
+M.contract(P_TP + ':TokenParser.require_has_valid_head_token', params=dict(self=TP, syntax_element=Str),
+           raises={SingleInstructionInvalidArgumentException: {
+               'when': lambda self: self._token_stream._head_token is None}},
+           ensures={'nothing-changes': lambda self: True},
+           modifies={},
+           raises_only=())
+M.contract(P_TP + ':TokenParser.has_valid_head_token', params=dict(self=TP), returns=Bool, inline=True,
+           ensures={'head-token-present': lambda self, result: result == (self._token_stream._head_token is not None)},
+           raises_only=())
+M.contract(P_TP + ':TokenParser.is_at_eol', params=dict(self=TP), returns=Bool, inline=True,
+           ensures={'rest-of-line-blank': lambda self, result:
+           result == blank(current_line_rest(self._token_stream._source, self._token_stream._start_pos))},
+           raises_only=())
